@@ -77,6 +77,8 @@ def strategy_(draw, tier):
                    "frac": draw(st.sampled_from([0.1, 0.5, 0.9]))}
         else:
             thr = {"type": ttype, "mode": "log", "u": draw(st.floats(-6, 1, width=32))}
+    if kind == "narrowint":
+        y = S.narrow(draw, X, y, params)
     return {"cls": cls, "direction": direction, "kind": kind, "X": X, "y": y, "params": params,
             "requests": requests, "thr": thr}
 
@@ -159,6 +161,7 @@ def check(case, ctx):
     interesting = False
     stopped = False
     for step, req in enumerate(case["requests"]):
+        req = S.native(req)
         sel.n_to_select = req
         rec.reset()
         prior = int(getattr(sel, "n_selected_", 0)) if step > 0 else 0
